@@ -46,6 +46,9 @@ def make_design():
             with m.If(~s["go"]):
                 assertion(m, ~s["bad"], "a {:02d}", f, name="io.chk")         # r6: assertion (ERROR when bad, context ~go)
             lio.warning(m, s["t0"], "after {}", f)                            # r7: registered after the error records
+            la.info(m, f, "wide {}", f)                                       # r8: multi-bit trigger (non-zero = true)
+            with m.If(s["t1"]):
+                lio.debug(m, f[1:], "p {:>3s}|{:*<3s}|{:4d}", ch, ch, fs)     # r9: string width / fill / alignment specs
             return m
 
     return Dut()
@@ -67,6 +70,8 @@ def reference(history, level, regexp):
             ("io", logging.ERROR, err, f"e {f}"),
             ("io.chk", logging.ERROR, bad and not go, "a {:02d}".format(f)),
             ("io", logging.WARNING, t0, f"after {f}"),
+            ("core.a", logging.INFO, f != 0, f"wide {f}"),
+            ("io", logging.DEBUG, t1 and (f >> 1), "p {:>3s}|{:*<3s}|{:4d}".format(chr(0x41 + f), chr(0x41 + f), fs)),
         ]
         for name, lvl, trig, msg in recs:
             if lvl < level or not re.search(regexp, name):
@@ -170,7 +175,7 @@ def cases(length, reduced, level, regexp, lo, hi):
 
 
 def run(rep, tier):
-    rep.rule = ("a design with eight log records (debug at top level; info with two formatted fields under m.If; warning with a "
+    rep.rule = ("a design with ten log records (multi-bit trigger; string width/fill specs; debug at top level; info with two formatted fields under m.If; warning with a "
                 "signed field inside a method body; string format; record without fields; ERROR record; assertion under m.If; a "
                 "record registered after the ERROR ones; three logger names) is simulated with the real make_logging_process for "
                 "every input history: length 1 over all 128 valuations for three (level, namespace) filters, length 2 over a "
